@@ -1359,7 +1359,92 @@ func clip(b []byte) string {
 const silentProg = `BEGIN { print "x" | "exec cat >> c1"; for (i = 0; i < 200000; i++) n++; print "hello" }`
 const echoProg = `BEGIN { for (i=0;i<2000;i++) print "aaaaaaaaaaaaaaaaaaaaaaaaaaaaaaaaaaaaaaaaaaaaaaaaaaaaaaaaaaaaaaaaaaaaaaaaa" | "cat"; fflush("cat"); for (i=0;i<200000;i++) print "y"; close("cat") }`
 
+// Two children sharing the program's stdout at the same time: a print | cmd child that echoes its
+// input after a short delay while a system() child, which writes later still, is running.  The
+// program itself is inside system() all that while, so on a correct tree nothing is concurrent
+// with the program's own writes and the two children's goroutines call Output.Write at moments
+// 0.25 s apart; every line must arrive whole.  (A child's goroutine that sits in Output.ReadFrom
+// instead -- cmd.Stdout not wrapped by childWriter -- overwrites or drops what the other wrote.)
+const sharedProg = `BEGIN { print "start"; print "hello" | "sleep 0.05; cat"; system("sleep 0.3; echo world"); close("sleep 0.05; cat"); print "end" }`
+
+func sharedChild(which string) {
+	prog, err := parser.ParseProgram([]byte(sharedProg), nil)
+	if err != nil {
+		fmt.Println("parse-error", err)
+		return
+	}
+	var sink bytes.Buffer
+	plain := &failW{limit: -1}
+	var out io.Writer
+	switch which {
+	case "shared-bytesbuffer":
+		out = &sink
+	case "shared-bufio":
+		out = bufio.NewWriterSize(plain, 64*1024)
+	default: // shared-plain
+		out = plain
+	}
+	st, err := interp.ExecProgram(prog, &interp.Config{Output: out, Error: io.Discard, Stdin: strings.NewReader(""), Environ: []string{"PATH", os.Getenv("PATH")}})
+	got := sink.Bytes()
+	if which != "shared-bytesbuffer" {
+		got = plain.snapshot()
+	}
+	fmt.Printf("status=%d err=%v stdout=%s\n", st, err, hx.Hex(got))
+}
+
+// sharedVerdict: "" if stdout is what two children and the program may produce: the complete lines
+// start, hello, world, end, each exactly once, start first and end last (hello and world come from
+// two different children and may arrive in either order), no other byte.
+func sharedVerdict(line string) string {
+	const pre = "status=0 err=<nil> stdout="
+	if !strings.HasPrefix(line, pre) {
+		return "the run did not end with status 0"
+	}
+	out := string(hx.UnHex(strings.TrimPrefix(line, pre)))
+	if strings.ContainsRune(out, 0) {
+		return "NUL bytes in stdout"
+	}
+	if out != "start\nhello\nworld\nend\n" && out != "start\nworld\nhello\nend\n" {
+		return "lines lost, torn or out of place"
+	}
+	return ""
+}
+
+func sharedSearch(rep *hx.Report, tries int, only string) {
+	for _, which := range []string{"shared-bytesbuffer", "shared-bufio", "shared-plain"} {
+		if only != "" && only != which {
+			continue
+		}
+		for i := 0; i < tries; i++ {
+			rep.SearchEvals++
+			cmd := exec.Command(os.Args[0], "-racechild", which)
+			outb, err := cmd.CombinedOutput()
+			got := strings.TrimSpace(string(outb))
+			if err != nil {
+				got += " [subprocess: " + err.Error() + "]"
+			}
+			if len(got) > 600 {
+				got = got[:600]
+			}
+			if v := sharedVerdict(got); v != "" {
+				shown := got
+				if strings.HasPrefix(got, "status=0 err=<nil> stdout=") {
+					shown = fmt.Sprintf("status=0 err=<nil> stdout=%q", hx.UnHex(strings.TrimPrefix(got, "status=0 err=<nil> stdout=")))
+				}
+				rep.Fail(hx.Failure{Class: "two children (print | cmd and system) writing to a shared stdout that is not an *os.File", Oracle: "stdout = the complete lines of the program and of its children, each once",
+					Detail: map[string]any{"program": sharedProg, "output": map[string]string{"shared-bytesbuffer": "&bytes.Buffer{}", "shared-bufio": "bufio.NewWriterSize(w, 65536)", "shared-plain": "plain io.Writer"}[which],
+						"want": `stdout="start\nhello\nworld\nend\n" (hello/world in either order)`, "got": shown, "verdict": v, "kind": "race", "which": which}})
+				break
+			}
+		}
+	}
+}
+
 func raceChild(which string) {
+	if strings.HasPrefix(which, "shared-") {
+		sharedChild(which)
+		return
+	}
 	dir, err := os.MkdirTemp("", "c13race")
 	if err != nil {
 		fmt.Println("tempdir", err)
@@ -1393,6 +1478,13 @@ func raceChild(which string) {
 }
 
 func raceSearch(rep *hx.Report, tries int, only string) {
+	if strings.HasPrefix(only, "shared-") {
+		sharedSearch(rep, tries, only)
+		return
+	}
+	if only == "" {
+		sharedSearch(rep, 1, "")
+	}
 	type variant struct{ which, prog, output, want, class string }
 	wantA, wantY := 2000*73, 200000
 	vs := []variant{
